@@ -135,6 +135,11 @@ def task_cands(a, env):
     C = BL.suite_cls(suite)
     pk = MB.sk_to_pk(sk)
     seen = set()
+    # call history before the verifications (ignored results): related inputs through other entry points
+    if target == "sig":
+        BL.prelude(suite, pk, MB.hashed_message(suite, sk, msg), MB.DST[suite], S)
+    else:
+        BL.prelude(suite, pk, pk, MB.POP_TAG, S)
     idxs = list(range(a["lo"], len(cands), a["step"]))
     # every slice is a history: the honest signature is verified first and again last, so that a
     # verdict that depends on what was decoded / verified before it shows up inside the task
